@@ -14,13 +14,37 @@
 (* of the segment from the C03 validation.                                 *)
 (***************************************************************************)
 EXTENDS Hll, TraceCommon
-CONSTANTS Strict09,
+CONSTANTS CheckDesign,  \* TRUE only in the tier-B configuration (TraceHllB.cfg): keep a design-level shadow state (HllMech) per
+                        \* sketch and compare it with the PHYSICAL state of the sketch's own image; clauses "B:..." = MODEL-DRIFT
+          Strict09,
           SkPrefix    \* "" when the sketch clauses belong to the owning property (C03), "C03:" when the trace belongs to C04
-VARIABLES hist, blob
-tvars == <<obj, l, hist, blob>>
+VARIABLES hist, blob, sh
+tvars == <<obj, l, hist, blob, sh>>
 
 \* sketches above this lg_k get the sparse ghost (Hll.tla: big)
 DenseMaxLgK == 16
+(* ---------------- tier B: design-level shadow ---------------- *)
+M == INSTANCE HllMech WITH ListSize <- 8, SetMinLgK <- 8, LgInitSet <- 5, SetLgDelta <- 3, AuxToken <- 15, ShiftBack <- 14   \* the code's values
+ShadowMaxLgK == 12
+NoSh == [mode |-> 0 - 1]
+Sup(d) == d.mode >= 0
+ShInit(t, full, lgk) == IF lgk <= ShadowMaxLgK THEN M!DInit(t, full, lgk) ELSE NoSh
+\* the next shadow map (only computed in tier B)
+ShSet(f) == IF CheckDesign THEN f ELSE sh
+\* physical observation p of the sketch's own image against the shadow record d; s = the slot the last coupon fell into
+PhysOK(p, d, lgK, s) == (CheckDesign /\ Sup(d) /\ p.m >= 0) =>
+  /\ Chk("B:mode", p.m = d.mode)
+  /\ (d.mode = 0 /\ p.m = 0) => Chk("B:list-array", p.list = d.list /\ p.cnt = Len(d.list))
+  /\ (d.mode = 1 /\ p.m = 1) => /\ Chk("B:set-count", p.cnt = Cardinality(d.set))
+                                /\ Chk("B:set-lg-size", p.lg = d.setLg)
+  /\ (d.mode = 2 /\ p.m = 2) =>
+        /\ Chk("B:cur-min", p.cm = IF d.type = 4 THEN d.h.curMin ELSE 0)
+        /\ Chk("B:num-at-cur-min", p.nac = d.h.nac)
+        /\ Chk("B:stored-slot", p.raw = M!RawArr(d.type, d.h, s))
+        /\ d.type = 4 => Chk("B:aux-table", /\ p.auxn = Cardinality(DOMAIN d.h.aux)
+                                            /\ ToSet(p.aux) = {<<x, d.h.aux[x]>> : x \in DOMAIN d.h.aux})
+        /\ Has(p, "arr") => Chk("B:stored-array", \A x \in 0..(2^lgK - 1) : p.arr[x + 1] = M!RawArr(d.type, d.h, x))
+
 Chk9(name, c) == IF ~Strict09 THEN TRUE ELSE Chk(name, c)
 ChkS(name, c) == IF c THEN TRUE ELSE Chk(SkPrefix \o name, c)
 
@@ -62,8 +86,9 @@ ProjOK(r, o) ==
      THEN IF Has(r, "nz")      \* sparse observation (lg_k > 16): the non-zero registers as <<slot, value>> pairs
           THEN ChkS("registers", /\ o.big /\ Len(r.nz) = Cardinality(ToSet(r.nz))
                                  /\ PairsMatch(ToSet(r.nz), o.fed, o.lgK))
-          ELSE ChkS("registers", /\ ~o.big /\ Len(r.regs) = 2^o.lgK
-                                 /\ \A s \in DOMAIN o.top : r.regs[s + 1] = o.top[s])
+          ELSE ChkS("registers", /\ Len(r.regs) = 2^o.lgK
+                                 /\ IF o.big THEN PairsMatch({<<x - 1, r.regs[x]>> : x \in {y \in DOMAIN r.regs : r.regs[y] > 0}}, o.fed, o.lgK)
+                                    ELSE \A s \in DOMAIN o.top : r.regs[s + 1] = o.top[s])
      ELSE /\ ChkS("coupons", ToSet(r.coup) = o.fed)
           /\ ChkS("no-duplicate-coupons", Len(r.coup) = Cardinality(o.fed) /\ r.cnt = Len(r.coup))
   /\ BoundsOK(r, o)
@@ -73,11 +98,12 @@ PairOK(ra, rb) ==
   /\ ChkS("composite-estimate-agrees", SameState(ra.id, rb.id) => ra.cest = rb.cest)
   /\ ChkS("in-order-estimate-agrees", SameOrder(ra.id, rb.id) => ra.est = rb.est)
 
-TBegin == IsEvent("Begin") /\ obj' = <<>> /\ hist' = <<>> /\ blob' = <<>>
+TBegin == IsEvent("Begin") /\ obj' = <<>> /\ hist' = <<>> /\ blob' = <<>> /\ sh' = <<>>
 TNew == IsEvent("New") /\ LET e == Log[l] IN
           /\ New(e.id, e.lgk, e.type, e.full, e.mode, e.lgk > DenseMaxLgK)
           /\ ChkS("empty", e.empty)
           /\ hist' = (e.id :> EmptyHist) @@ hist /\ UNCHANGED blob
+          /\ sh' = ShSet((e.id :> ShInit(e.type, e.full, e.lgk)) @@ sh)
 TUpdate == IsEvent("Update") /\ LET e == Log[l]  c == <<e.c[1], e.c[2]>>  ids == ToSet(e.ids) IN
           /\ UpdateAll(e.ids, c, e.m)
           /\ \A n \in DOMAIN e.ids : LET o == obj'[e.ids[n]] IN
@@ -85,21 +111,27 @@ TUpdate == IsEvent("Update") /\ LET e == Log[l]  c == <<e.c[1], e.c[2]>>  ids ==
                /\ ChkS("slot-value", (e.sv[n] >= 0 => e.sv[n] = SlotVal(o, SlotOf(c, o.lgK))) /\ ((o.mode = HLL /\ ~o.big) => e.sv[n] >= 0))
           /\ hist' = [j \in DOMAIN hist |-> IF j \in ids THEN HAppend(hist[j], c) ELSE hist[j]]
           /\ UNCHANGED blob
+          /\ sh' = ShSet([j \in DOMAIN sh |-> IF j \in ids /\ Sup(sh[j]) THEN M!DStep(sh[j], obj[j].lgK, c) ELSE sh[j]])
+          /\ \A n \in DOMAIN e.ids : PhysOK(e.ph[n], sh'[e.ids[n]], obj[e.ids[n]].lgK, SlotOf(c, obj[e.ids[n]].lgK))
 TFeed == IsEvent("Feed") /\ LET e == Log[l] IN
           /\ FeedMany(e.id, e.cs, e.mode)
           /\ ChkS("empty", e.empty = obj'[e.id].empty)
           /\ hist' = [hist EXCEPT ![e.id] = SeqFold(HAppend, @, e.cs)]
           /\ UNCHANGED blob
+          /\ sh' = ShSet([sh EXCEPT ![e.id] = IF Sup(@) THEN SeqFold(LAMBDA d, c : M!DStep(d, obj[e.id].lgK, c), @, e.cs) ELSE @])
+          /\ (Has(e, "ph") => PhysOK(e.ph, sh'[e.id], obj[e.id].lgK, SlotOf(e.cs[Len(e.cs)], obj[e.id].lgK)))
 TUpdateIgnored == IsEvent("UpdateIgnored") /\ LET e == Log[l] IN
           /\ \A n \in DOMAIN e.ids : /\ UpdateIgnored(e.ids[n])
                                      /\ ChkS("mode", e.m[n] = obj[e.ids[n]].mode)
                                      /\ ChkS("empty", e.em[n] = obj[e.ids[n]].empty)
-          /\ UNCHANGED <<obj, hist, blob>>
+          /\ UNCHANGED <<obj, hist, blob, sh>>
 TObs == IsEvent("Obs") /\ LET e == Log[l] IN
           /\ \A n \in DOMAIN e.objs : ProjOK(e.objs[n], obj[e.objs[n].id])
           /\ \A n, k \in DOMAIN e.objs : n < k => PairOK(e.objs[n], e.objs[k])
           /\ Has(e, "ref") => \A n \in DOMAIN e.objs : PairOK(e.ref, e.objs[n])
-          /\ UNCHANGED <<obj, hist, blob>>
+          /\ \A n \in DOMAIN e.objs : LET r == e.objs[n] IN
+               (CheckDesign /\ Has(r, "ph")) => PhysOK(r.ph, sh[r.id], obj[r.id].lgK, 0)
+          /\ UNCHANGED <<obj, hist, blob, sh>>
 TConvert == IsEvent("Convert") /\ LET e == Log[l] IN
           /\ ConvertCopy(e.src, e.dst, e.type, e.r.mode)
           /\ hist' = (e.dst :> hist[e.src]) @@ hist
@@ -108,23 +140,29 @@ TConvert == IsEvent("Convert") /\ LET e == Log[l] IN
           /\ ChkS("composite-estimate-agrees", Class(obj'[e.dst].mode) = Class(obj[e.src].mode) => e.r.cest = e.ref.cest)
           /\ ChkS("in-order-estimate-agrees", Class(obj'[e.dst].mode) = Class(obj[e.src].mode) => e.r.est = e.ref.est)
           /\ UNCHANGED blob
+          /\ sh' = ShSet((e.dst :> IF Sup(sh[e.src]) THEN M!DConvert(sh[e.src], obj[e.src].lgK, e.type) ELSE NoSh) @@ sh)
+          /\ (CheckDesign /\ Has(e.r, "ph")) => PhysOK(e.r.ph, sh'[e.dst], obj[e.src].lgK, 0)
 TCopy == IsEvent("Copy") /\ LET e == Log[l] IN
           /\ Copy(e.src, e.dst)
           /\ hist' = (e.dst :> hist[e.src]) @@ hist
           /\ ProjOK(e.r, obj'[e.dst])
           /\ ChkS("copy-estimates", e.r.cest = e.ref.cest /\ e.r.est = e.ref.est /\ e.r.lb = e.ref.lb /\ e.r.ub = e.ref.ub)
           /\ UNCHANGED blob
+          /\ sh' = ShSet((e.dst :> sh[e.src]) @@ sh)
+          /\ (CheckDesign /\ Has(e.r, "ph")) => PhysOK(e.r.ph, sh'[e.dst], obj[e.src].lgK, 0)
 TReset == IsEvent("Reset") /\ LET e == Log[l] IN
           /\ Reset(e.id, e.mode)
           /\ ChkS("empty", e.empty)
           /\ hist' = [hist EXCEPT ![e.id] = EmptyHist] /\ UNCHANGED blob
+          /\ sh' = ShSet([sh EXCEPT ![e.id] = IF Sup(@) THEN M!DReset(@, obj[e.id].full, obj[e.id].lgK) ELSE @])
 TSer == IsEvent("Ser") /\ LET e == Log[l] IN
           /\ Chk9("C09:bytes=stream", e.img = e.simg)
           /\ Chk9("C09:advertised-size", e.size = e.advertised)
           /\ Chk9("C09:header", e.total = e.hdr + e.size /\ e.img = e.img0)
           /\ Chk9("C09:max-size", e.maxsize >= 0 => e.size <= e.maxsize)
-          /\ blob' = (e.blob :> [st |-> obj[e.src], hist |-> hist[e.src], size |-> e.size, canon |-> e.canon, p |-> e.p]) @@ blob
-          /\ UNCHANGED <<obj, hist>>
+          /\ blob' = (e.blob :> [st |-> obj[e.src], hist |-> hist[e.src], size |-> e.size, canon |-> e.canon, p |-> e.p,
+                                      sh |-> IF CheckDesign THEN sh[e.src] ELSE NoSh]) @@ blob
+          /\ UNCHANGED <<obj, hist, sh>>
 TDeser == IsEvent("Deser") /\ LET e == Log[l]  b == blob[e.blob] IN
           /\ Restore(e.dst, b.st)
           /\ hist' = (e.dst :> b.hist) @@ hist
@@ -133,8 +171,11 @@ TDeser == IsEvent("Deser") /\ LET e == Log[l]  b == blob[e.blob] IN
           /\ Chk9("C09:consumed", e.consumed = b.size)
           /\ Chk9("C09:reserialize", e.recanon = b.canon)
           /\ UNCHANGED blob
+          \* the restored sketch is expected to have the physical state of its source (same thresholds => same sizes)
+          /\ sh' = ShSet((e.dst :> b.sh) @@ sh)
+          /\ (CheckDesign /\ Has(e.r, "ph")) => PhysOK(e.r.ph, b.sh, b.st.lgK, 0)
 
-TInit == obj = <<>> /\ l = 1 /\ hist = <<>> /\ blob = <<>>
+TInit == obj = <<>> /\ l = 1 /\ hist = <<>> /\ blob = <<>> /\ sh = <<>>
 SkNext == TNew \/ TUpdate \/ TFeed \/ TUpdateIgnored \/ TObs \/ TConvert \/ TCopy \/ TReset \/ TSer \/ TDeser
 TNext == TBegin \/ SkNext
 TSpec == TInit /\ [][TNext]_tvars
